@@ -111,6 +111,9 @@ def generate(seed, tier):
     k = model.swarm_knobs(rng, tier, allow=("ascii", "latin1"),
                           continuous=(dest_fmt == "brackets"))
     k["n_max"] = rng.choice([1, 2, 4, 6])
+    if src_fmt in ("export", "tigerxml") and rng.random() < 0.2:
+        k["pos_paren"] = True
+        k["punct"], k["pair"] = max(k["punct"], 0.2), max(k["pair"], 0.15)
     tb = model.gen_treebank(rng, k, nsent=size, sid_pattern="consecutive")
     flt = None
     if rng.random() < 0.35:
